@@ -499,7 +499,9 @@ impl OsIpcSender {
                 len as socklen_t,
             ) < 0
             {
-                return Err(UnixError::last());
+                let error = UnixError::last();
+                libc::close(fd);
+                return Err(error);
             }
 
             Ok(OsIpcSender::from_fd(fd))
